@@ -1078,9 +1078,9 @@ def com_pp_stage(ctx, impl):
         if text is None:
             continue
         ctx.case(("compp", text), nontrivial=depth(c) >= 1)
-        m_lines = [sexp.dec(a) for a in sexp.loads(out[2 * i])]
-        if "\n".join(m_lines) != text:
-            disagree("print_com differs: impl %r model %r" % (text, "\n".join(m_lines)))
+        m_text = sexp.dec(out[2 * i])
+        if m_text != text:
+            disagree("print_com differs: impl %r model %r" % (text, m_text))
             continue
         r_p, m_p = parse_real(impl, text, com=True), model_parse_result(out[2 * i + 1], com=True)
         if (r_p[0] == "ok") != (m_p[0] == "ok") or (r_p[0] == "ok" and r_p[1] != m_p[1]):
